@@ -17,6 +17,8 @@ type Prop struct {
 	BatchTimeoutS func(t Tier) int
 	// Post lets a property add aggregated keys to the evidence coverage.
 	Post func(hist map[string]int64, cov map[string]any)
+	// ConfirmTimeoutS is the limit for re-running a case the watchdog stopped (default 20 s).
+	ConfirmTimeoutS int
 	// Env gives extra environment variables for a batch's worker process.
 	Env func(root string, batch int) []string
 	// MaxProcs limits worker parallelism (0 = number of CPUs).
